@@ -333,7 +333,7 @@ fn oracle(c: &Case, rec: &Rec) -> R {
 pub fn checks() -> Vec<CheckDef> {
     let mut v = checks_structured();
     #[cfg(feature = "full")]
-    v.push(super::fuzzstage::check("C16", "decode_any", "libfuzzer-decode-any", 200_000));
+    v.push(super::fuzzstage::check("C16", "decode_any", "libfuzzer-decode-any", 100_000));
     v
 }
 
